@@ -10,8 +10,11 @@ package main
 import (
 	"bufio"
 	"bytes"
+	"encoding/json"
 	"fmt"
+	"io"
 	"net"
+	"net/http"
 	"sort"
 	"strconv"
 	"strings"
@@ -64,6 +67,17 @@ type admSess struct {
 	cust    logic.ICustomizePubSessionContext
 	gone    bool
 	refused bool
+	mates   *[]*admSess // every session created on the same RTSP command connection (shared)
+}
+
+// the connection of s has ended: every session created on it is over for the harness
+func (s *admSess) connDone() {
+	s.gone = true
+	if s.mates != nil {
+		for _, m := range *s.mates {
+			m.gone = true
+		}
+	}
 }
 
 type admAttempt struct {
@@ -108,6 +122,8 @@ type admCase struct {
 	originObs *admOriginObs
 	originSrv *rtmp.Server
 	anomalies []string
+	api       *logic.HttpApiServer // started by the first request through the HTTP API
+	apiClient *http.Client
 }
 
 // observer wrapper in front of the ServerManager: learns unique keys
@@ -280,6 +296,9 @@ func (c *admCase) cleanup() {
 		c.disposed = true
 		c.sm.Dispose()
 	}
+	if c.api != nil {
+		c.api.VerifClose()
+	}
 }
 
 // ---------------------------------------------------------------------------
@@ -309,20 +328,25 @@ func rtmpClientScript(app, streamWithQuery string, publish bool) []byte {
 	_ = rtmp.Amf0.WriteNumber(&m, 2)
 	_ = rtmp.Amf0.WriteNull(&m)
 	b.Write(rtmpCmd(3, base.RtmpTypeIdCommandMessageAmf0, 0, m.Bytes()))
-	m.Reset()
+	b.Write(rtmpPublishOrPlay(streamWithQuery, publish, 3))
+	return b.Bytes()
+}
+
+// one publish / play command message with transaction id tid
+func rtmpPublishOrPlay(streamWithQuery string, publish bool, tid int) []byte {
+	var m bytes.Buffer
 	if publish {
 		_ = rtmp.Amf0.WriteString(&m, "publish")
 	} else {
 		_ = rtmp.Amf0.WriteString(&m, "play")
 	}
-	_ = rtmp.Amf0.WriteNumber(&m, 3)
+	_ = rtmp.Amf0.WriteNumber(&m, float64(tid))
 	_ = rtmp.Amf0.WriteNull(&m)
 	_ = rtmp.Amf0.WriteString(&m, streamWithQuery)
 	if publish {
 		_ = rtmp.Amf0.WriteString(&m, "live")
 	}
-	b.Write(rtmpCmd(5, base.RtmpTypeIdCommandMessageAmf0, 1, m.Bytes()))
-	return b.Bytes()
+	return rtmpCmd(5, base.RtmpTypeIdCommandMessageAmf0, 1, m.Bytes())
 }
 
 func rtmpAudioMsg(ts uint32) []byte {
@@ -656,6 +680,21 @@ func (c *admCase) doOp(op string) string {
 			return "r"
 		}
 		return r
+	case "rp2", "rs2": // a further publish / play command naming <stream> on the connection of RTMP session N: rp2.<stream>.<N>
+		s := c.sess["c"+f[2]]
+		if s == nil || (s.kind != "rp" && s.kind != "rs") || s.gone || s.conn.isClosed() {
+			return "x"
+		}
+		s.conn.feed(rtmpPublishOrPlay(stream(1), f[0] == "rp2", 4))
+		r := s.conn.waitIdle(s.done)
+		switch r {
+		case "idle":
+			return "a"
+		case "done":
+			s.gone = true
+			return "r"
+		}
+		return r
 	case "ap", "ds": // rtsp announce / describe: ap.<stream>.<sid>[.deny]
 		name := "c" + f[2]
 		if _, dup := c.sess[name]; dup {
@@ -666,6 +705,7 @@ func (c *admCase) doOp(op string) string {
 			q = f[3] + "=1"
 		}
 		s := &admSess{name: name, kind: f[0], stream: stream(1), conn: newAdmConn("10.0.0.2:" + f[2])}
+		s.mates = &[]*admSess{s}
 		c.sess[name] = s
 		c.cur = s
 		c.startShell(s, true)
@@ -685,6 +725,39 @@ func (c *admCase) doOp(op string) string {
 			return "r"
 		}
 		return r
+	case "ap2", "ds2": // a further ANNOUNCE / DESCRIBE on the command connection of session N: ap2.<stream>.<N>.<new sid>[.deny]
+		first := c.sess["c"+f[2]]
+		name := "c" + f[3]
+		if _, dup := c.sess[name]; dup {
+			return "x"
+		}
+		if first == nil || first.mates == nil || first.gone || first.conn.isClosed() {
+			return "x"
+		}
+		q := ""
+		if len(f) > 4 {
+			q = f[4] + "=1"
+		}
+		s := &admSess{name: name, kind: f[0][:2], stream: stream(1), conn: first.conn, done: first.done, mates: first.mates}
+		*s.mates = append(*s.mates, s)
+		c.sess[name] = s
+		c.cur = s
+		if f[0] == "ap2" {
+			s.conn.feed(rtspRequest("ANNOUNCE", stream(1), q, 3, admSdp))
+		} else {
+			s.conn.feed(rtspRequest("DESCRIBE", stream(1), q, 3, ""))
+		}
+		r := s.conn.waitIdle(s.done)
+		c.cur = nil
+		switch r {
+		case "idle":
+			return "a"
+		case "done":
+			s.refused = true
+			s.connDone()
+			return "r"
+		}
+		return r
 	case "pl": // rtsp play of a described session: pl.<sid>
 		s := c.sess["c"+f[1]]
 		if s == nil || s.kind != "ds" || s.gone || s.conn.isClosed() {
@@ -696,7 +769,7 @@ func (c *admCase) doOp(op string) string {
 		case "idle":
 			return "a"
 		case "done":
-			s.gone = true
+			s.connDone()
 			return "r"
 		}
 		return r
@@ -766,22 +839,45 @@ func (c *admCase) doOp(op string) string {
 			return "x"
 		}
 		resp := c.sm.CtrlStartRtpPub(base.ApiCtrlStartRtpPubReq{StreamName: stream(1), Port: 0, TimeoutMs: 0, IsTcpFlag: 0})
-		s := &admSess{name: name, kind: "pp", stream: stream(1)}
-		c.sess[name] = s
-		if resp.ErrorCode == base.ErrorCodeSucc {
-			s.key = resp.Data.SessionId
-			c.keyName[s.key] = name
-		} else {
-			s.refused = true
-			s.gone = true
+		return c.rtpPubResult(name, stream(1), resp)
+	case "hpp": // start_rtp_pub through the HTTP API: hpp.<stream|a>.<sid>.<port>.<timeout_ms>.<is_tcp_flag> (fields: a z q or an integer)
+		name := "c" + f[2]
+		if _, dup := c.sess[name]; dup {
+			return "x"
 		}
-		return strconv.Itoa(resp.ErrorCode)
+		var kv []string
+		if f[1] != "a" {
+			kv = append(kv, `"stream_name":`+strconv.Quote(stream(1)))
+		}
+		kv = admJsonField(kv, "port", f[3])
+		kv = admJsonField(kv, "timeout_ms", f[4])
+		kv = admJsonField(kv, "is_tcp_flag", f[5])
+		var resp base.ApiCtrlStartRtpPubResp
+		if e := c.apiCall("POST", "/api/ctrl/start_rtp_pub", "{"+strings.Join(kv, ",")+"}", &resp); e != "" {
+			return e
+		}
+		if resp.ErrorCode == base.ErrorCodeParamMissing {
+			return strconv.Itoa(resp.ErrorCode)
+		}
+		r := c.rtpPubResult(name, stream(1), resp)
+		if resp.ErrorCode == base.ErrorCodeSucc {
+			sec, _ := c.sm.VerifPsPubTimeoutSec(stream(1))
+			// is the session listening on tcp?  then the port cannot be bound a second time
+			tcp := "0"
+			if l, err := net.Listen("tcp", ":"+strconv.Itoa(resp.Data.Port)); err != nil {
+				tcp = "1"
+			} else {
+				_ = l.Close()
+			}
+			r += "~" + strconv.Itoa(int(sec)) + ":" + tcp
+		}
+		return r
 	case "gone": // the connection of a session ends: gone.<sid>
 		s := c.sess["c"+f[1]]
 		if s == nil || s.gone {
 			return "x"
 		}
-		s.gone = true
+		s.connDone()
 		switch s.kind {
 		case "rp", "rs", "ap", "ds":
 			s.conn.release()
@@ -808,24 +904,27 @@ func (c *admCase) doOp(op string) string {
 		name := f[2]
 		key := c.realKey(stream(1), name)
 		resp := c.sm.CtrlKickSession(base.ApiCtrlKickSessionReq{StreamName: stream(1), SessionId: key})
-		if resp.ErrorCode == base.ErrorCodeSucc {
-			if s := c.sess[name]; s != nil && s.kind == "pp" {
-				deadline := time.Now().Add(admWaitDur())
-				for {
-					v, ok := c.viewOf(stream(1))
-					if !ok || v.PsPub != key {
-						break
-					}
-					if time.Now().After(deadline) {
-						c.anomalies = append(c.anomalies, "ps-del-timeout")
-						break
-					}
-					time.Sleep(50 * time.Microsecond)
-				}
-				s.gone = true
-			}
+		return c.kickResult(name, stream(1), key, resp)
+	case "hkick": // kick_session through the HTTP API: hkick.<stream|a>.<name|a>
+		var kv []string
+		name, key, st := f[2], "", ""
+		if f[1] != "a" {
+			st = stream(1)
+			kv = append(kv, `"stream_name":`+strconv.Quote(st))
 		}
-		return strconv.Itoa(resp.ErrorCode)
+		if name != "a" {
+			if st != "" {
+				key = c.realKey(st, name)
+			} else {
+				key = c.realKey("", name)
+			}
+			kv = append(kv, `"session_id":`+strconv.Quote(key))
+		}
+		var resp base.ApiCtrlKickSessionResp
+		if e := c.apiCall("POST", "/api/ctrl/kick_session", "{"+strings.Join(kv, ",")+"}", &resp); e != "" {
+			return e
+		}
+		return c.kickResult(name, st, key, resp)
 	case "spull": // start_relay_pull: spull.<stream>.<retry>.<autostop ms>  (retry / autostop may be negative: n1 = -1)
 		l := c.originListener(stream(1))
 		isRtsp := len(f) > 4 && f[4] == "rtsp" // spull.<stream>.<retry>.<autostop>.rtsp: an rtsp:// url (interleaved)
@@ -836,27 +935,58 @@ func (c *admCase) doOp(op string) string {
 		req := base.ApiCtrlStartRelayPullReq{Url: scheme + l.addr() + "/live/" + stream(1), StreamName: stream(1),
 			PullTimeoutMs: 30000, PullRetryNum: admInt(f[2]), AutoStopPullAfterNoOutMs: admInt(f[3]), RtspMode: base.RtspModeTcp}
 		resp := c.sm.CtrlStartRelayPull(req)
-		c.rtspUrl[stream(1)] = isRtsp // StartPull stores the url whether or not an attempt starts
-		if resp.ErrorCode == base.ErrorCodeSucc && resp.Data.SessionId != "" {
-			// the id of the attempt just started
-			st := stream(1)
-			c.attCount[st]++
-			na := &admAttempt{name: fmt.Sprintf("p%s_%d", f[1], c.attCount[st]), stream: st, state: "held", key: resp.Data.SessionId, rtsp: isRtsp}
-			c.keyName[na.key] = na.name
-			conn, ok := l.waitConn()
-			if !ok {
-				c.anomalies = append(c.anomalies, "attempt-never-connected")
-				na.state = "finished"
-			} else {
-				na.conn = conn
-			}
-			c.att[st] = na
-			c.attByName[na.name] = na
-			return "0:" + na.name
+		return c.startPullResult(f[1], isRtsp, l, resp)
+	case "hpull": // start_relay_pull through the HTTP API: hpull.<stream>.<pull_timeout_ms>.<pull_retry_num>.<auto_stop..>.<rtsp_mode>.<flags>
+		// fields: a (key absent) z (null) q (a string) or an integer; flags: - or letters r (rtsp:// url) u (no url key) n (no stream_name key)
+		l := c.originListener(stream(1))
+		fl := f[6]
+		isRtsp := strings.Contains(fl, "r")
+		scheme := "rtmp://"
+		if isRtsp {
+			scheme = "rtsp://"
 		}
-		return strconv.Itoa(resp.ErrorCode) + ":" + admReason(resp.Desp)
+		var kv []string
+		if !strings.Contains(fl, "u") {
+			kv = append(kv, `"url":`+strconv.Quote(scheme+l.addr()+"/live/"+stream(1)))
+		}
+		if !strings.Contains(fl, "n") {
+			kv = append(kv, `"stream_name":`+strconv.Quote(stream(1)))
+		}
+		kv = admJsonField(kv, "pull_timeout_ms", f[2])
+		kv = admJsonField(kv, "pull_retry_num", f[3])
+		kv = admJsonField(kv, "auto_stop_pull_after_no_out_ms", f[4])
+		kv = admJsonField(kv, "rtsp_mode", f[5])
+		var resp base.ApiCtrlStartRelayPullResp
+		if e := c.apiCall("POST", "/api/ctrl/start_relay_pull", "{"+strings.Join(kv, ",")+"}", &resp); e != "" {
+			return e
+		}
+		if resp.ErrorCode == base.ErrorCodeParamMissing {
+			return strconv.Itoa(resp.ErrorCode)
+		}
+		r := c.startPullResult(f[1], isRtsp, l, resp)
+		// what reached the group
+		if v, ok := c.viewOf(stream(1)); ok {
+			to, mode, _ := c.sm.VerifPullSettings(stream(1))
+			r += "~" + admTok(to) + ":" + admTok(v.PullRetryNum) + ":" + admTok(v.AutoStopPullAfterNoOutMs) + ":" + admTok(mode)
+		} else {
+			r += "~nogroup"
+		}
+		return r
 	case "xpull": // stop_relay_pull: xpull.<stream>
 		resp := c.sm.CtrlStopRelayPull(stream(1))
+		if resp.ErrorCode == base.ErrorCodeSucc {
+			return "0:" + c.nameOfKey(resp.Data.SessionId)
+		}
+		return strconv.Itoa(resp.ErrorCode)
+	case "hxpull": // stop_relay_pull through the HTTP API: hxpull.<stream|a>
+		path := "/api/ctrl/stop_relay_pull"
+		if f[1] != "a" {
+			path += "?stream_name=" + stream(1)
+		}
+		var resp base.ApiCtrlStopRelayPullResp
+		if e := c.apiCall("GET", path, "", &resp); e != "" {
+			return e
+		}
 		if resp.ErrorCode == base.ErrorCodeSucc {
 			return "0:" + c.nameOfKey(resp.Data.SessionId)
 		}
@@ -1055,6 +1185,119 @@ func (c *admCase) doOp(op string) string {
 		return "m" + strings.Join(got, "+")
 	}
 	return "unknown-op"
+}
+
+// ---------------------------------------------------------------------------
+// requests through the real HTTP API server (Listen + RunLoop on a loopback port)
+
+func (c *admCase) apiCall(method, path, body string, out interface{}) string {
+	if c.api == nil {
+		c.api = logic.NewHttpApiServer("127.0.0.1:0", c.sm)
+		if err := c.api.Listen(); err != nil {
+			c.api = nil
+			return "err-api-listen"
+		}
+		go func() { _ = c.api.RunLoop() }()
+		c.apiClient = &http.Client{Transport: &http.Transport{DisableKeepAlives: true}, Timeout: admWait}
+	}
+	var rd io.Reader
+	if method == "POST" {
+		rd = strings.NewReader(body)
+	}
+	req, err := http.NewRequest(method, "http://"+c.api.VerifAddr()+path, rd)
+	if err != nil {
+		return "err-api-request"
+	}
+	resp, err := c.apiClient.Do(req)
+	if err != nil {
+		return "err-api-do"
+	}
+	defer resp.Body.Close()
+	raw, err := io.ReadAll(resp.Body)
+	if err != nil {
+		return "err-api-read"
+	}
+	if err := json.Unmarshal(raw, out); err != nil {
+		return "err-api-json"
+	}
+	return ""
+}
+
+// one numeric key of a request body: a = absent, z = null, q = a string, else the integer
+func admJsonField(kv []string, key, tok string) []string {
+	switch tok {
+	case "a":
+		return kv
+	case "z":
+		return append(kv, strconv.Quote(key)+":null")
+	case "q":
+		return append(kv, strconv.Quote(key)+`:"5"`)
+	}
+	return append(kv, strconv.Quote(key)+":"+strconv.Itoa(admInt(tok)))
+}
+
+func admTok(v int) string {
+	if v < 0 {
+		return "n" + strconv.Itoa(-v)
+	}
+	return strconv.Itoa(v)
+}
+
+// the answer of start_relay_pull (direct call or HTTP): register the attempt that was started
+func (c *admCase) startPullResult(sidx string, isRtsp bool, l *admListener, resp base.ApiCtrlStartRelayPullResp) string {
+	st := "s" + sidx
+	c.rtspUrl[st] = isRtsp // StartPull stores the url whether or not an attempt starts
+	if resp.ErrorCode == base.ErrorCodeSucc && resp.Data.SessionId != "" {
+		// the id of the attempt just started
+		c.attCount[st]++
+		na := &admAttempt{name: fmt.Sprintf("p%s_%d", sidx, c.attCount[st]), stream: st, state: "held", key: resp.Data.SessionId, rtsp: isRtsp}
+		c.keyName[na.key] = na.name
+		conn, ok := l.waitConn()
+		if !ok {
+			c.anomalies = append(c.anomalies, "attempt-never-connected")
+			na.state = "finished"
+		} else {
+			na.conn = conn
+		}
+		c.att[st] = na
+		c.attByName[na.name] = na
+		return "0:" + na.name
+	}
+	return strconv.Itoa(resp.ErrorCode) + ":" + admReason(resp.Desp)
+}
+
+func (c *admCase) rtpPubResult(name, st string, resp base.ApiCtrlStartRtpPubResp) string {
+	s := &admSess{name: name, kind: "pp", stream: st}
+	c.sess[name] = s
+	if resp.ErrorCode == base.ErrorCodeSucc {
+		s.key = resp.Data.SessionId
+		c.keyName[s.key] = name
+	} else {
+		s.refused = true
+		s.gone = true
+	}
+	return strconv.Itoa(resp.ErrorCode)
+}
+
+func (c *admCase) kickResult(name, st, key string, resp base.ApiCtrlKickSessionResp) string {
+	if resp.ErrorCode == base.ErrorCodeSucc {
+		if s := c.sess[name]; s != nil && s.kind == "pp" {
+			deadline := time.Now().Add(admWaitDur())
+			for {
+				v, ok := c.viewOf(st)
+				if !ok || v.PsPub != key {
+					break
+				}
+				if time.Now().After(deadline) {
+					c.anomalies = append(c.anomalies, "ps-del-timeout")
+					break
+				}
+				time.Sleep(50 * time.Microsecond)
+			}
+			s.gone = true
+		}
+	}
+	return strconv.Itoa(resp.ErrorCode)
 }
 
 func admReason(desp string) string {
